@@ -175,6 +175,10 @@ func JoinTokens(r *Rng, toks []string, mode int) string {
 		c := t[0]
 		return c == '_' || (c >= 'a' && c <= 'z') || (c >= 'A' && c <= 'Z')
 	}
+	seps := []string{" ", "\t", "\n", " "}
+	if mode == 2 && r.Chance(1, 3) { // a file with CRLF line ends: the carriage return is white space too
+		seps = []string{" ", "\t", "\r\n", " ", "\r\n"}
+	}
 	for i, t := range toks {
 		if i > 0 {
 			switch mode {
@@ -186,14 +190,14 @@ func JoinTokens(r *Rng, toks []string, mode int) string {
 				sb.WriteByte(' ')
 			default:
 				for k := r.Intn(3); k >= 0; k-- {
-					sb.WriteByte(" \t\n "[r.Intn(4)])
+					sb.WriteString(seps[r.Intn(len(seps))])
 				}
 			}
 		}
 		sb.WriteString(t)
 	}
 	if mode == 2 && r.Bool() {
-		sb.WriteString("\n")
+		sb.WriteString(seps[2])
 	}
 	return sb.String()
 }
